@@ -364,7 +364,15 @@ type HSpec struct {
 	// UseDefault: created with a nil bucket argument; the bounds are then those of the root's
 	// DefaultBuckets option (CacheCase.Default), of the kind they were given in
 	UseDefault bool `json:"useDefault,omitempty"`
+	// Custom: the set is handed over inside a user-defined type that implements tally.Buckets (a
+	// wrapper carrying a unit, say). The library may refuse such a type (it panics on the unchanged
+	// tree: the histogram is then skipped); if it accepts it, the histogram has the bounds it was
+	// created with like any other
+	Custom bool `json:"custom,omitempty"`
 }
+
+// wrapBuckets is a Buckets implementation of the harness's own.
+type wrapBuckets struct{ tally.Buckets }
 
 type CacheCase struct {
 	Cached bool    `json:"cached"`
@@ -508,7 +516,7 @@ func genCache(t *rapid.T) CacheCase {
 				bits[1] = bits[0]
 			}
 		}
-		hs := HSpec{Dur: rapid.Bool().Draw(t, "dur"), Sub: rapid.IntRange(0, 2).Draw(t, "sub")}
+		hs := HSpec{Dur: rapid.Bool().Draw(t, "dur"), Sub: rapid.IntRange(0, 2).Draw(t, "sub"), Custom: rapid.IntRange(0, 9).Draw(t, "custom") == 0}
 		if variant == 7 {
 			for _, b := range bits {
 				if f := math.Float64frombits(b); math.IsNaN(f) || math.IsInf(f, 0) {
@@ -754,6 +762,7 @@ func runCache(c CacheCase) (pbt.Outcome, error) {
 	scopes := []tally.Scope{root, root.SubScope("s1"), root.Tagged(map[string]string{"t": "1"})}
 	prefixes := []string{"", "s1.", ""}
 	names := make([]string, len(c.Hists))
+	rejected := make([]bool, len(c.Hists))
 	specs, arenaV, arenaD := c.materialize()
 	arenaV0, arenaD0 := append([]float64(nil), arenaV...), append([]time.Duration(nil), arenaD...)
 	var bufV []float64
@@ -786,7 +795,25 @@ func runCache(c CacheCase) (pbt.Outcome, error) {
 		if h.UseDefault && c.Default != nil {
 			arg = nil // the root's default buckets (the HSpec carries what they are)
 		}
-		hist := scopes[h.Sub].Histogram(n, arg)
+		if h.Custom && arg != nil {
+			arg = wrapBuckets{arg}
+		}
+		var hist tally.Histogram
+		func() {
+			defer func() {
+				if p := recover(); p != nil {
+					if h.Custom {
+						rejected[i] = true // a Buckets type of the caller's own is not supported: fine
+						return
+					}
+					panic(p)
+				}
+			}()
+			hist = scopes[h.Sub].Histogram(n, arg)
+		}()
+		if rejected[i] {
+			continue
+		}
 		if fmt.Sprint(before.AsDurations()) != fmt.Sprint(spec.AsDurations()) || fmt.Sprint(before.AsValues()) != fmt.Sprint(spec.AsValues()) {
 			errs.Addf("Histogram() modified the caller's slice: %v -> %v", before, spec)
 		}
@@ -807,6 +834,10 @@ func runCache(c CacheCase) (pbt.Outcome, error) {
 	}
 	ev := log.Events()
 	for i, h := range c.Hists {
+		if rejected[i] {
+			out.Classes = append(out.Classes, "custom-buckets-type-rejected")
+			continue
+		}
 		checkHist(&errs, names[i], h, ev, c.Cached)
 	}
 	if c.Layout != 0 {
